@@ -17,6 +17,8 @@ import (
 
 var debugQueries = os.Getenv("VERIF_DEBUG_QUERIES") != ""
 
+type budgetError struct{}
+
 type encError struct{ msg string }
 
 func (e encError) Error() string { return e.msg }
@@ -50,7 +52,8 @@ type Engine struct {
 	mergesTotal      int
 	trace            bool
 	cur              *State
-	boundCache       map[int]int
+	onFinal          func(*State)
+	boundCache       map[[2]int]int
 	queryCache       map[string]cachedQuery
 	varsCache        map[int][]string
 	noMerge          bool
@@ -60,7 +63,7 @@ func NewEngine(prog *ssa.Program, ts *TermStore, solver *Solver) *Engine {
 	return &Engine{ts: ts, solver: solver, prog: prog, fnInfos: map[*ssa.Function]*fnInfo{},
 		baseMem: map[*Object]*cellBlock{}, globals: map[*ssa.Global]*Object{}, pkgInit: map[*ssa.Package]bool{},
 		strObjs: map[string]*Object{}, stubs: map[string]*ssa.Function{}, maxUnwind: 64, maxSteps: 20000000,
-		funcsEncoded: map[string]bool{}, boundCache: map[int]int{}, queryCache: map[string]cachedQuery{}, varsCache: map[int][]string{}}
+		funcsEncoded: map[string]bool{}, boundCache: map[[2]int]int{}, queryCache: map[string]cachedQuery{}, varsCache: map[int][]string{}}
 }
 
 // ---- feasibility ----
@@ -225,7 +228,7 @@ func (e *Engine) decide(as []*Term) (res Result, model map[string]*big.Int, diag
 		}()
 	}
 	if !e.h.deadline.IsZero() && time.Now().After(e.h.deadline) {
-		return Unknown, nil, "harness wall-clock budget exhausted"
+		panic(budgetError{})
 	}
 	full := e.solver.timeout
 	nodes := len(e.ts.Cone(as...))
@@ -602,6 +605,21 @@ func (e *Engine) require(st *State, ok *Term, msg string, in ssa.Instruction) bo
 	return true
 }
 
+// finalize reports a terminated state once and releases its memory.
+func (e *Engine) finalize(st *State) {
+	if st.finalized || e.initDepth > 0 {
+		return
+	}
+	st.finalized = true
+	if e.onFinal != nil {
+		e.onFinal(st)
+	}
+	st.mem = nil
+	st.frames = nil
+	st.pc = nil
+	st.model = nil
+}
+
 // ---- main loop ----
 
 func (st *State) matchStop(stops []stopPoint, retFrame int) *stopPoint {
@@ -641,6 +659,7 @@ func (e *Engine) run1(st *State, stops []stopPoint) []*State {
 	var out []*State
 	for {
 		if st.status != Running {
+			e.finalize(st)
 			out = append(out, st)
 			return out
 		}
@@ -669,6 +688,9 @@ func (e *Engine) run1(st *State, stops []stopPoint) []*State {
 		e.cur = st
 		st.steps++
 		e.stepsTotal++
+		if e.stepsTotal&0xfff == 0 && !e.h.deadline.IsZero() && time.Now().After(e.h.deadline) && e.initDepth == 0 {
+			panic(budgetError{})
+		}
 		if st.steps > e.maxSteps {
 			panic(encErr("step budget exceeded"))
 		}
